@@ -90,6 +90,26 @@ def analyse(files, decls, scratch, build):
         raise C.Infra("hdeps: " + h["err"][:500])
     res["hook"] = h
     if build.driver_ok and getattr(build, "deps_proto", True):
+        # ---- the units of ordering: Model.Deps.declUnits on the top-level declarations of the SOURCE (single declarations, and const
+        #      groups with their specs) gives the units the translator recorded, file by file (sorted), in order, with the same names
+        def enc(xs):
+            return ",".join(x.encode().hex() for x in (xs or [])) or "-"
+        tops, want_names = [], []
+        for fname in sorted(files):
+            ftext = files[fname]
+            here = sorted((ftext.index(d.text), d) for d in decls if d.text and d.text in ftext)
+            for _, d in here:
+                if d.kind == "constgroup":
+                    tops.append("g:" + ";".join("%s|-" % enc([m]) for m in d.coq_names))
+                else:
+                    tops.append("s:%s|-" % enc(d.coq_names))
+        rep = C.driver("deps", ["units " + " ".join(tops)])[0] if tops else "units  order "
+        if not rep.startswith("units"):
+            raise C.Infra("deps driver (units): " + rep[:200])
+        model_units = [w.split("|")[0] for w in rep.split(" order ")[0].split()[1:]]
+        real_units = [enc(sorted(i["Names"] or [])) for i in h["infos"]]
+        if [enc(sorted(bytes.fromhex(x).decode() for x in u.split(",") if x != "-")) if u != "-" else "-" for u in model_units] != real_units:
+            res["units_mismatch"] = {"model_units": model_units[:40], "recorded_units": real_units[:40]}
         mo = model_order(h["infos"])
         predicted = [e for i in mo for e in (h["infos"][i]["Emitted"] or [])]
         if predicted != h["emitted"]:
@@ -145,6 +165,13 @@ def check(ctx, build=None):
                     if not any(b["kind"] == "correspondence" for b in build.broken):
                         build.broken.append({"kind": "correspondence", "name": "deps: Model.Deps.emitOrder vs the order Decls emitted (hook VerifDecls)",
                                              "detail": json.dumps({"seed": seed, "layout": li, **res["model_mismatch"]})[:1500]})
+                if "units_mismatch" in res:
+                    stats["units_mismatches"] += 1
+                    if not any(b["name"].startswith("deps: Model.Deps.declUnits") for b in build.broken):
+                        build.broken.append({"kind": "correspondence", "name": "deps: Model.Deps.declUnits on the source vs the units Decls recorded (hook VerifDecls)",
+                                             "detail": json.dumps({"seed": seed, "layout": li, **res["units_mismatch"]})[:1500]})
+                else:
+                    stats["units_compared"] += 1
                 if canon0 is None:
                     canon0 = res["canon"]
                 elif res["canon"] != canon0 and not res["problems"]:
